@@ -197,6 +197,7 @@ class Contract:
     prune: bool = False
     decreases: typing.Optional[str] = None  # Int expression over the parameters; checked at recursive calls
     post_hook: typing.Optional[typing.Callable] = None
+    label: str = ""  # distinguishes several contracts (parameter-class cases) on one function in obligation names
 
     @property
     def file(self) -> str:
@@ -707,7 +708,7 @@ class Engine:
         info = {"paths": 0, "returns": 0, "raises": 0}
 
         def one_path() -> None:
-            ctx = Ctx(ex, c, c.qualname)
+            ctx = Ctx(ex, c, c.qualname + (f"[{c.label}]" if c.label else ""))
             interp = Interp(self, ctx, loop_ids)
             for name, spec in c.params.items():
                 ctx.env[name] = ctx.make(spec, name)
@@ -1337,6 +1338,8 @@ class Interp:
                 if isinstance(op, ast.FloorDiv):
                     return VInt(q)
                 return VInt(app("-", a.t, app("*", b.t, q)))
+            if isinstance(op, ast.Pow) and a.t.isdigit() and b.t.isdigit():
+                return VInt(str(int(a.t) ** int(b.t)))  # literal power folded (e.g. 2**63)
             h = self.e.binop_hooks.get("Int." + type(op).__name__)
             if h:
                 return h(self, a, b)
